@@ -575,7 +575,11 @@ func run(r *core.Run) {
 		fmt.Sscan(only, &d)
 		interleave(full, d, d-1)
 	} else if r.Quick() {
-		interleave(full, 4, 3)
+		// depth 4 first with payload representatives: a run cut by the deadline on a busy machine has then
+		// still completed depth 4 over all conventions
+		interleave(full, 3, 3)
+		add(reps, true, 4, 4)
+		add(full, true, 4, 4)
 	} else {
 		// the deadline decides how far the run gets: first the quick space, then depth (reduced alphabet up to
 		// depth 8), then breadth (all conventions at depth 5..6 with representative payloads, full alphabet at depth 4..5)
